@@ -1,1 +1,185 @@
-(* placeholder *)
+(* Lemmas about the store operations of Store.v. *)
+From Coq Require Import List Bool NArith Arith Lia.
+From Coq.Strings Require Import Byte.
+From BWExec Require Import Base Values Store BaseProofs.
+Import ListNotations.
+
+Lemma has_get : forall s n, has s n = true <-> exists g, get s n = Some g.
+Proof.
+  intros s n. unfold has. destruct (get s n) as [g|]; split; intro H; try reflexivity; try discriminate.
+  - exists g. reflexivity.
+  - destruct H as [g H]. discriminate.
+Qed.
+
+Lemma has_false_get : forall s n, has s n = false <-> get s n = None.
+Proof.
+  intros s n. unfold has. destruct (get s n); split; intro H; try reflexivity; discriminate.
+Qed.
+
+Lemma has_In_names : forall s n, has s n = true <-> In n (names s).
+Proof.
+  intros s n. unfold has. induction s as [|[k g] r IH]; cbn.
+  - split; [discriminate | tauto].
+  - destruct (str_eqb k n) eqn:E.
+    + apply str_eqb_spec in E. subst. split; auto.
+    + apply str_eqb_neq in E. rewrite IH. split; [auto | intros [H|H]; [contradiction | exact H]].
+Qed.
+
+Lemma getd_get : forall s n g, get s n = Some g -> getd s n = g.
+Proof. intros s n g H. unfold getd. rewrite H. reflexivity. Qed.
+
+(* ---- set_graph ---- *)
+Lemma names_set_graph : forall s n g, names (set_graph s n g) = names s.
+Proof.
+  intros s n g. unfold names, set_graph. rewrite map_map. apply map_ext.
+  intros [k x]. cbn. destruct (str_eqb k n); reflexivity.
+Qed.
+
+Lemma get_set_graph_same : forall s n g, has s n = true -> get (set_graph s n g) n = Some g.
+Proof.
+  intros s n g. unfold has. induction s as [|[k x] r IH]; cbn; [discriminate|].
+  destruct (str_eqb k n) eqn:E; cbn; rewrite E; [reflexivity | exact IH].
+Qed.
+
+Lemma get_set_graph_none : forall s n g, has s n = false -> set_graph s n g = s.
+Proof.
+  intros s n g. unfold has. induction s as [|[k x] r IH]; cbn; [reflexivity|].
+  destruct (str_eqb k n) eqn:E; [discriminate|]. intro H. unfold set_graph in IH. rewrite (IH H). reflexivity.
+Qed.
+
+Lemma get_set_graph_other : forall s n g n', n <> n' -> get (set_graph s n g) n' = get s n'.
+Proof.
+  intros s n g n' Hne. induction s as [|[k x] r IH]; cbn; [reflexivity|].
+  destruct (str_eqb k n) eqn:E; cbn.
+  - apply str_eqb_spec in E. subst k. apply str_eqb_neq in Hne. rewrite Hne. exact IH.
+  - destruct (str_eqb k n'); [reflexivity | exact IH].
+Qed.
+
+Lemma has_set_graph : forall s n g n', has (set_graph s n g) n' = has s n'.
+Proof.
+  intros s n g n'. destruct (has s n') eqn:E.
+  - apply has_In_names. rewrite names_set_graph. apply has_In_names. exact E.
+  - destruct (has (set_graph s n g) n') eqn:E'; [|reflexivity].
+    apply has_In_names in E'. rewrite names_set_graph in E'. apply has_In_names in E'. congruence.
+Qed.
+
+Lemma getd_set_graph_same : forall s n g, has s n = true -> getd (set_graph s n g) n = g.
+Proof. intros s n g H. apply getd_get. apply get_set_graph_same. exact H. Qed.
+
+Lemma getd_set_graph_other : forall s n g n', n <> n' -> getd (set_graph s n g) n' = getd s n'.
+Proof. intros s n g n' H. unfold getd. rewrite get_set_graph_other by exact H. reflexivity. Qed.
+
+(* ---- new_graph ---- *)
+Lemma get_app_some : forall s s' n g, get s n = Some g -> get (s ++ s') n = Some g.
+Proof.
+  induction s as [|[k x] r IH]; cbn; intros s' n g H; [discriminate|].
+  destruct (str_eqb k n); [exact H | apply IH; exact H].
+Qed.
+
+Lemma get_app_none : forall s s' n, get s n = None -> get (s ++ s') n = get s' n.
+Proof.
+  induction s as [|[k x] r IH]; cbn; intros s' n H; [reflexivity|].
+  destruct (str_eqb k n); [discriminate | apply IH; exact H].
+Qed.
+
+Lemma new_graph_spec : forall s n s', new_graph s n = Some s' ->
+  has s n = false /\ names s' = names s ++ [n] /\ get s' n = Some [] /\ (forall n', n' <> n -> get s' n' = get s n').
+Proof.
+  intros s n s'. unfold new_graph. destruct (has s n) eqn:E; [discriminate|]. intro H. inversion H; subst s'. clear H.
+  split; [reflexivity|]. split; [unfold names; rewrite map_app; reflexivity|]. split.
+  - apply has_false_get in E. rewrite get_app_none by exact E. cbn. rewrite str_eqb_refl. reflexivity.
+  - intros n' Hne. destruct (get s n') as [g|] eqn:G.
+    + apply get_app_some. exact G.
+    + rewrite get_app_none by exact G. cbn. assert (X : str_eqb n n' = false) by (apply str_eqb_neq; congruence).
+      rewrite X. reflexivity.
+Qed.
+
+Lemma new_graph_none : forall s n, new_graph s n = None <-> has s n = true.
+Proof. intros s n. unfold new_graph. destruct (has s n); split; intro H; try reflexivity; discriminate. Qed.
+
+(* ---- delete_graph ---- *)
+Lemma get_filter_other : forall s n n', n' <> n ->
+  get (filter (fun e => negb (str_eqb (fst e) n)) s) n' = get s n'.
+Proof.
+  intros s n n' Hne. induction s as [|[k x] r IH]; cbn; [reflexivity|].
+  destruct (str_eqb k n) eqn:E; cbn.
+  - apply str_eqb_spec in E. subst k. assert (X : str_eqb n n' = false) by (apply str_eqb_neq; congruence).
+    rewrite X. exact IH.
+  - destruct (str_eqb k n'); [reflexivity | exact IH].
+Qed.
+
+Lemma get_filter_same : forall s n, get (filter (fun e => negb (str_eqb (fst e) n)) s) n = None.
+Proof.
+  intros s n. induction s as [|[k x] r IH]; cbn; [reflexivity|].
+  destruct (str_eqb k n) eqn:E; cbn; [exact IH | rewrite E; exact IH].
+Qed.
+
+Lemma delete_graph_spec : forall s n s', delete_graph s n = Some s' ->
+  has s n = true /\ get s' n = None /\ (forall n', n' <> n -> get s' n' = get s n') /\
+  names s' = filter (fun k => negb (str_eqb k n)) (names s).
+Proof.
+  intros s n s'. unfold delete_graph. destruct (has s n) eqn:E; [|discriminate]. intro H. inversion H; subst s'. clear H.
+  split; [reflexivity|]. split; [apply get_filter_same|]. split; [intros n' Hne; apply get_filter_other; exact Hne|].
+  unfold names. clear E. induction s as [|[k x] r IH]; cbn; [reflexivity|].
+  destruct (str_eqb k n); cbn; [exact IH | rewrite IH; reflexivity].
+Qed.
+
+Lemma delete_graph_none : forall s n, delete_graph s n = None <-> has s n = false.
+Proof. intros s n. unfold delete_graph. destruct (has s n); split; intro H; try reflexivity; discriminate. Qed.
+
+(* ---- contents after a write ---- *)
+Lemma add_triples_In : forall g ts t, In t (add_triples g ts) <-> In t g \/ In t ts.
+Proof. intros g ts t. unfold add_triples. apply set_add_all_In. exact triple_eqb_ok. Qed.
+
+Lemma remove_triples_In : forall g ts t, In t (remove_triples g ts) <-> In t g /\ ~ In t ts.
+Proof. intros g ts t. unfold remove_triples. apply set_remove_all_In. exact triple_eqb_ok. Qed.
+
+Lemma add_triples_NoDup : forall g ts, NoDup g -> NoDup (add_triples g ts).
+Proof. intros g ts H. unfold add_triples. apply set_add_all_NoDup; [exact triple_eqb_ok | exact H]. Qed.
+
+Lemma remove_triples_NoDup : forall g ts, NoDup g -> NoDup (remove_triples g ts).
+Proof. intros g ts H. unfold remove_triples. apply set_remove_all_NoDup. exact H. Qed.
+
+(* ---- well-formedness as a proposition ---- *)
+Definition WF (s : store) : Prop := NoDup (names s) /\ forall n g, In (n, g) s -> NoDup g.
+
+Lemma wf_store_spec : forall s, wf_store s = true <-> WF s.
+Proof.
+  intros s. unfold wf_store, WF. rewrite andb_true_iff, (nodup_b_spec str_eqb str_eqb_ok), forallb_forall.
+  split; intros [H1 H2]; split; try exact H1.
+  - intros n g Hin. specialize (H2 (n, g) Hin). cbn in H2. apply (nodup_b_spec triple_eqb triple_eqb_ok). exact H2.
+  - intros [n g] Hin. cbn. apply (nodup_b_spec triple_eqb triple_eqb_ok). apply (H2 n g Hin).
+Qed.
+
+Lemma WF_set_graph : forall s n g, WF s -> NoDup g -> WF (set_graph s n g).
+Proof.
+  intros s n g [H1 H2] Hg. split; [rewrite names_set_graph; exact H1|].
+  intros n' g' Hin. unfold set_graph in Hin. apply in_map_iff in Hin. destruct Hin as [[k x] [E Hin]]. cbn in E.
+  destruct (str_eqb k n); inversion E; subst; [exact Hg | apply (H2 _ _ Hin)].
+Qed.
+
+Lemma In_get_NoDup : forall s n, WF s -> NoDup (getd s n).
+Proof.
+  intros s n [_ H2]. unfold getd. destruct (get s n) as [g|] eqn:E; [|constructor].
+  assert (X : In (n, g) s).
+  { clear H2. induction s as [|[k x] r IH]; cbn in *; [discriminate|].
+    destruct (str_eqb k n) eqn:E'; [apply str_eqb_spec in E'; inversion E; subst; left; reflexivity | right; apply IH; exact E]. }
+  apply (H2 _ _ X).
+Qed.
+
+Lemma WF_new_graph : forall s n s', WF s -> new_graph s n = Some s' -> WF s'.
+Proof.
+  intros s n s' [H1 H2] H. pose proof (new_graph_spec _ _ _ H) as [Hh [Hn _]].
+  unfold new_graph in H. rewrite Hh in H. inversion H; subst s'. split.
+  - rewrite Hn. apply NoDup_snoc; [exact H1|]. intro X. apply has_In_names in X. congruence.
+  - intros n' g Hin. apply in_app_iff in Hin. destruct Hin as [Hin|[Hin|[]]]; [apply (H2 _ _ Hin)|].
+    inversion Hin; subst. constructor.
+Qed.
+
+Lemma WF_delete_graph : forall s n s', WF s -> delete_graph s n = Some s' -> WF s'.
+Proof.
+  intros s n s' [H1 H2] H. pose proof (delete_graph_spec _ _ _ H) as [Hh [_ [_ Hn]]].
+  unfold delete_graph in H. rewrite Hh in H. inversion H; subst s'. split.
+  - rewrite Hn. apply filter_NoDup. exact H1.
+  - intros n' g Hin. apply filter_In in Hin. destruct Hin as [Hin _]. apply (H2 _ _ Hin).
+Qed.
